@@ -73,7 +73,22 @@ def parse_unit(name):
     path = unit_path(name)
     u = Unit(name)
     u.path = path
-    lines = open(path).read().split("\n")
+    raw_lines = open(path).read().split("\n")
+    lines = []
+    for ln in raw_lines:
+        if ln.strip().startswith("@recipe"):
+            parts = ln.strip().split(None, 2)
+            rl = open(os.path.join(VERIF, parts[1])).read().rstrip("\n").split("\n")
+            if len(parts) > 2:
+                over = json.loads(parts[2])
+                # merge overrides into the JSON of the @fn line
+                m = re.match(r"(@fn\s+\S+\s+\S+)\s*(\{.*)?$", rl[0].strip())
+                base = json.loads(m.group(2)) if m.group(2) else {}
+                base.update(over)
+                rl[0] = m.group(1) + " " + json.dumps(base)
+            lines += rl
+        else:
+            lines.append(ln)
     i = 0
     n = len(lines)
     while i < n:
@@ -247,6 +262,7 @@ class Assembled:
         self.tag_list = []      # all tags in order
         self.tag_text = {}      # tag -> clause text
         self.lint = []
+        self.assumed = []       # callee contracts assumed in this unit (proved in another unit)
 
 
 def indent_of(line):
@@ -289,6 +305,39 @@ def splice(fn_text, blocks, res, sec, unit):
         if k not in used and k != "after":
             raise Undecided("lost anchor: recipe block `%s` of %s has no matching site in the extracted function (unit %s)" % (k, sec.name, unit.name))
     return "\n".join(out_lines)
+
+
+def make_assumed(text):
+    """Turn a spliced function into an assumed contract: keep signature + spec, drop the body, drop tags."""
+    lines = text.split("\n")
+    out = []
+    i = 0
+    # find the `pub fn` line
+    fn_idx = next(k for k, l in enumerate(lines) if re.match(r"\s*pub (const )?fn ", l))
+    ind = indent_of(lines[fn_idx])
+    body_open = None
+    for k in range(fn_idx + 1, len(lines)):
+        if lines[k].rstrip() == " " * ind + "{":
+            body_open = k
+            break
+    if body_open is None:
+        raise Undecided("internal: cannot locate body of assumed function")
+    body_close = None
+    for k in range(body_open + 1, len(lines)):
+        if lines[k].rstrip() == " " * ind + "}":
+            body_close = k
+            break
+    for k, l in enumerate(lines):
+        if k == fn_idx:
+            out.append(" " * ind + "#[verifier::external_body] // ASSUMED callee contract (proved in its own unit)")
+        if body_open < k < body_close:
+            continue
+        if k == body_open:
+            out.append(l)
+            out.append(" " * ind + "    unimplemented!()")
+            continue
+        out.append(re.sub(r"//\s*@ob.*$", "// (assumed)", l))
+    return "\n".join(out)
 
 
 def audit_recipe_block(key, lines, where):
@@ -360,6 +409,9 @@ def assemble(unit, twin=False):
                     sp.append("        false, // @twin %s" % s.name)
                     blocks["spec"] = sp
                 text = splice(r["text"], blocks, r, s, unit)
+                if s.opts.get("assume"):
+                    text = make_assumed(text)
+                    a.assumed.append((s.impl + "::" if s.impl else "") + s.name)
                 lifted = r.get("lifted") or []
                 after = blocks.get("after")
                 label = (s.impl + "::" if s.impl else "") + s.name
